@@ -102,7 +102,7 @@ def well_formed(spec: dict) -> bool:
     if ancestors(deps, spec['output']) | {spec['output']} != set(names):
         return False
     for _, arg in rec_marks(spec):
-        if arg['start'] not in ancestors(deps, arg['dest']):
+        if arg['start'] != arg['dest'] and arg['start'] not in ancestors(deps, arg['dest']):
             return False
     return True
 
